@@ -110,6 +110,10 @@ def make_pair(r, o=None):
     single = o.get('single', r.random() < 0.3)
     dh_univ = DH_ALL if o.get('slow_dh') else sorted(set(DH_WEIGHTED), key=DH_ALL.index)
     dh_pick = (lambda: r.choice(DH_ALL)) if o.get('slow_dh') else (lambda: r.choice(DH_WEIGHTED))
+    if o.get('modp_only'):
+        # only MODP groups (a public value of one MODP group is a legal-looking integer for another one: mix-ups go unnoticed by the maths)
+        dh_univ = ['14', '15', '16']
+        dh_pick = lambda: r.choice(['14', '14', '15', '16'])
 
     def dh_lists():
         common = dh_pick()
